@@ -1,6 +1,10 @@
 use std::{borrow::Cow, fmt::Display, sync::Arc};
 
-use pyo3::{exceptions::PyValueError, prelude::*, types::PyList};
+use pyo3::{
+    exceptions::PyValueError,
+    prelude::*,
+    types::{PyInt, PyList},
+};
 
 #[derive(Debug, Clone)]
 pub(crate) enum FieldValue {
@@ -103,6 +107,13 @@ impl<'a, 'py> pyo3::FromPyObject<'a, 'py> for FieldValue {
             Ok(FieldValue::Int64(inner))
         } else if let Ok(inner) = value.extract::<u64>() {
             Ok(FieldValue::Uint64(inner))
+        } else if value.is_instance_of::<PyInt>() {
+            // Don't let integers outside the 64-bit range fall through to the float conversion
+            // below, which would silently replace them with the nearest float.
+            Err(PyValueError::new_err(format!(
+                "{} is not a valid value: integers must fit in 64 bits, signed or unsigned",
+                value.to_owned()
+            )))
         } else if let Ok(inner) = value.extract::<f64>() {
             if inner.is_finite() {
                 Ok(FieldValue::Float64(inner))
